@@ -27,7 +27,7 @@ EXPLANATION = (
     "energy expression interpreted symbolically from pair_nuclear_energy. Numerical agreement with finite differences of the "
     "whole energy is not decided."
 )
-ASSUMPTIONS = ["the local-frame kernels TETCILF / der_TETCILF are derivative-consistent given identical inputs (not decided here)"]
+ASSUMPTIONS = ["the rotation of the local-frame integrals and of their derivatives to the molecular frame is the same map on both sides (C01-R1 pipeline agreement covers the inputs; the rotation itself is C02)"]
 TRUSTED = ["sympy", "sa.symexec masked straight-line interpreter"]
 
 PIPE = ["hpp", "dd", "qq", "rho_0", "rho_1", "rho_2"]
@@ -125,6 +125,8 @@ def run(ctx):
     ctx.rule("R3", "finite-difference stencils are central, restoring and correctly differenced")
     ctx.rule("R4", "force assembly: sign, gradient-buffer hygiene, Newton's third law scatter, padding rows untouched")
     ctx.rule("R5", "analytical core-core derivative equals the symbolic derivative of the core-core energy (6 cases)")
+    ctx.rule("R6", "every element of the analytical local-frame derivative kernel is d/dr of the corresponding energy integral (27 identities)")
+    _r6_derivative_kernel(ctx, repo)
 
     # ------------------------------------------------------------------ R1
     pe = _pipeline(te, te.func("two_elec_two_center_int"), PIPE)
@@ -335,3 +337,44 @@ def run(ctx):
                   f"core_core_der ({method}, X-H pair={xh}) returns {sp.simplify(Gd)} but the derivative of pair_nuclear_energy is {sp.simplify(want)}")
     if n5 != 6:
         raise AnalysisError("core-core cases incomplete")
+
+
+def _r6_derivative_kernel(ctx, repo):
+    """der_TETCILF stores, for every local-frame integral, `term * g` with term = -ev/a0^2/r * X.  The energy kernel is re-read as sympy
+    expressions (sa.elemexec), differentiated with respect to the distance, and g must equal (d ri/dr)/ev for all 22 heavy-heavy, 4 heavy-H and
+    the H-H element (45-digit evaluation at random rational points).  This discharges the assumption that TETCILF / der_TETCILF are
+    derivative-consistent."""
+    import sympy as sp
+    from ..elemexec import ElemExec
+    from .c06 import _num_zero, interpret_local_frame
+    m, f, ex, r, S, base = interpret_local_frame(repo)
+    ag = repo.mod(AG)
+    d = ag.func("der_TETCILF")
+    T = sp.Symbol("T", positive=True)
+    env = dict(base)
+    env.update({"term": T, "a0": sp.Symbol("a0", positive=True), "Xij": sp.Symbol("X", positive=True)})
+    # `term` is the common vector prefactor: its definition must be -ev/a0/a0/r0 * Xij (checked textually), then it is a symbol
+    tdef = [st for st in d.body if isinstance(st, ast.Assign) and isinstance(st.targets[0], ast.Name) and st.targets[0].id == "term"]
+    ok_t = bool(tdef) and norm(tdef[0].value).replace(" ", "") in ("-ev/a0/a0/r0.unsqueeze(1)*Xij", "-ev/(a0*a0)/r0.unsqueeze(1)*Xij", "-ev/a0**2/r0.unsqueeze(1)*Xij")
+    ctx.check(ok_t, "R6", ag, tdef[0] if tdef else d, "der_TETCILF", "term", "common prefactor term = -ev/a0^2/r * X (chain rule dr/dX in eV/Angstrom)",
+              f"prefactor is `{norm(tdef[0].value) if tdef else None}`")
+    dx = ElemExec(env)
+    dx.run([st for st in d.body if not (tdef and (st is tdef[0] or (isinstance(st, ast.Assign) and norm(st.targets[0]) == "term")))])
+    n = 0
+    for arr, n_el, earr in (("ri_x", 22, "ri"), ("riXH_x", 4, "riXH")):
+        for k in range(n_el):
+            if (arr, k) not in dx.elems:
+                ctx.fail("R6", ag, d, "der_TETCILF", f"{arr}[{k + 1}]", f"derivative element {arr}[{k + 1}] not found")
+                continue
+            n += 1
+            diff = dx.elems[(arr, k)] / T - sp.diff(ex.elems[(earr, k)], r) / S["ev"]
+            ctx.check(_num_zero(diff, 400 + k + (50 if arr == "riXH_x" else 0)), "R6", ag, d, "der_TETCILF", f"{arr}[{k + 1}]",
+                      f"{arr}[{k + 1}] / term = (d {earr}[{k + 1}]/dr)/ev identically",
+                      f"{arr}[{k + 1}] is not the derivative of the energy integral {earr}[{k + 1}]: the analytical gradient of this two-electron integral is wrong "
+                      f"(forces differ from -dE/dx for every molecule that has this integral)")
+    if "riHH_x" in dx.env and "riHH" in ex.env:
+        n += 1
+        diff = dx.env["riHH_x"] / T - sp.diff(ex.env["riHH"], r) / S["ev"]
+        ctx.check(_num_zero(diff, 499), "R6", ag, d, "der_TETCILF", "riHH_x", "riHH_x / term = (d riHH/dr)/ev", "H-H derivative element is not the derivative of the H-H integral")
+    if n < 27:
+        raise AnalysisError(f"only {n} derivative elements compared")
